@@ -326,6 +326,14 @@ func c08Run(w *core.W) {
 			}
 		}
 	}
+	// (5b) key shortcuts whose type example needs escaping inside the key
+	for _, kt := range []string{`"ab\""`, `"\"ab"`, `"a\\"`, `"\"\""`, `"a\nb"`, `"\u0041\""`, `""`} {
+		for _, body := range []string{"{\n\t@k: 1\n}", "{\n\t\"p\": 0,\n\t@k: \"v\"\n}", "[\n\t{\n\t\t@k: 1\n\t}\n]"} {
+			if mine() {
+				c08Case(w, &project{Root: body, Types: map[string]string{"@k": kt}}, "key-shortcut-escapes")
+			}
+		}
+	}
 	// (7) regex user types in every kind of reference
 	for _, body := range []string{"@r", "{\n\t\"k\": @r\n}", "[\n\t@r\n]", `"aab" // {type: "@r"}`, "@r | @s", `"aab" // {or: ["@r", "integer"]}`,
 		"{\n\t@r: 1\n}", "{} // {additionalProperties: \"@r\"}", "{\n\t\"k\": @r, // {optional: true}\n\t\"m\": @q\n}"} {
